@@ -20,14 +20,14 @@ type callSite struct {
 }
 
 type effEngine struct {
-	p        *Program
-	callers  map[*ssa.Function][]callSite
-	callees  map[ssa.CallInstruction][]*ssa.Function
-	closures map[*ssa.Function][]*ssa.MakeClosure // MakeClosure sites per anonymous function
-	stores   map[string][]ssa.Value              // cell key -> stored values (module-wide)
-	scratch  map[*types.Named]bool
+	p          *Program
+	callers    map[*ssa.Function][]callSite
+	callees    map[ssa.CallInstruction][]*ssa.Function
+	closures   map[*ssa.Function][]*ssa.MakeClosure // MakeClosure sites per anonymous function
+	stores     map[string][]ssa.Value               // cell key -> stored values (module-wide)
+	scratch    map[*types.Named]bool
 	scratchWhy map[*types.Named]string
-	allFns   []*ssa.Function // module functions plus synthetic wrappers with bodies that call into the module
+	allFns     []*ssa.Function // module functions plus synthetic wrappers with bodies that call into the module
 }
 
 func newEFF(p *Program) *effEngine {
